@@ -109,6 +109,8 @@ func fmtNote(p *plan, f int) {
 		p.note("uncompressed-key")
 	case pkHybrid:
 		p.note("hybrid-key")
+	case pkOffCurve:
+		p.note("off-curve-key")
 	}
 }
 
